@@ -340,4 +340,75 @@ class C19e(Obligation):
                   'exactly the first report of every distinct token / module file is kept, in order')
 
 
-OBLIGATIONS = [C19a, C19b, C19d, C19e, C19f]
+class C19c(Obligation):
+    id = 'C19.c'
+    title = 'identifier scan: every file whose text mentions the name is parsed and yielded, in order, up to the documented file limits and not one file less'
+    pattern = 'P3 (stream of N files with symbolic "mentions the name" / "is compiled" / "vanished" answers; limits read from the module)'
+    assumptions = (
+        'the walk yields N<=8 files; reading, the regex test and module loading are stubs answering symbolically per file '
+        '(vanished / does not mention the name / mentions it and is python / mentions it but loads as compiled); the two '
+        'limits are patched to 2 parsed and 3 opened files so that the bounds are reachable (limit_reduction 1 and 2)',
+        'reference: scan the first `open_limit` files; yield the python files mentioning the name until `parse_limit` of them were yielded',
+    )
+
+    def configs(self, tier):
+        ns = (3, 5, 7) if tier == 'quick' else (1, 2, 3, 4, 5, 6, 7, 8)
+        return [dict(N=n, red=r) for n in ns for r in (1, 2)]
+
+    def scenario(self, ctx, cfg):
+        N = cfg['N']
+        ctx.patch(jrefs, '_PARSED_FILE_LIMIT', 2 * cfg['red'])
+        ctx.patch(jrefs, '_OPENED_FILE_LIMIT', 3 * cfg['red'])
+        drawn = {}
+
+        class Kinds:       # drawn lazily: files the scan never reaches stay unconstrained
+            def __getitem__(self, i):       # 0 vanished 1 no mention 2 python hit 3 compiled
+                if i not in drawn:
+                    drawn[i] = ctx.choice('file%d_kind' % i, 4)
+                return drawn[i]
+        kinds = Kinds()
+        opened = []
+
+        class FileIO:
+            def __init__(self, i):
+                self.i = i
+                self.path = '/proj/f%d.py' % i
+
+            def read(self):
+                opened.append(self.i)
+                if kinds[self.i] == 0:
+                    raise FileNotFoundError(self.path)
+                return b'x'
+        ctx.patch(jrefs, 'python_bytes_to_unicode', lambda code, errors='strict': 'x')
+        cur = []
+
+        class Regex:
+            def search(self, code):
+                return kinds[opened[-1]] >= 2
+        import re as _re
+        ctx.patch(jrefs, 're', Obj(compile=lambda pat: Regex(), escape=_re.escape))
+        ctx.patch(jrefs, 'KnownContentFileIO', lambda path, code: Obj(path=path))
+        ctx.patch(jrefs, 'load_module_from_path',
+                  lambda state, fio: Obj(is_compiled=lambda: kinds[opened[-1]] == 3,
+                                         as_context=lambda: 'module-context-of-file%d' % opened[-1]))
+        ctx.force(jrefs.search_in_file_ios, jrefs._check_fs)
+        out = ctx.call(lambda: list(jrefs.search_in_file_ios(None, [FileIO(i) for i in range(N)], 'name',
+                                                              limit_reduction=cfg['red'])))
+        ctx.check(out.exc is None, 'the scan never raises (a file that vanished is skipped)')
+        if out.exc is not None:
+            return
+        expected = []
+        expected_opened = []
+        for i in range(N):
+            expected_opened.append(i)
+            if kinds[i] == 2:
+                expected.append('module-context-of-file%d' % i)
+                if len(expected) >= 2:
+                    break
+            if len(expected_opened) >= 3:
+                break
+        ctx.check(out.value == expected, 'exactly the python files mentioning the name, in walk order, up to the parse limit')
+        ctx.check(opened == expected_opened, 'files are opened once each, in order, and none beyond the limits')
+
+
+OBLIGATIONS = [C19a, C19b, C19c, C19d, C19e, C19f]
